@@ -339,7 +339,14 @@ func init() {
 				if args[1] != "thorough" && c.g != "" && ei > 1 && !strings.HasPrefix(ep.name, "(*"+c.g+")") && (i+ei)%9 != 0 {
 					continue
 				}
-				evs = append(evs, c04Call(ep, c.data, c.id))
+				ev := c04Call(ep, c.data, c.id)
+				// a slow call is measured again (twice) and the fastest kept: load on the machine must not raise an alarm
+				for k := 0; k < 2 && num(ev["ms"]) > 300 && ev["outcome"] != "hang"; k++ {
+					if again := c04Call(ep, c.data, c.id); num(again["ms"]) < num(ev["ms"]) {
+						ev["ms"] = again["ms"]
+					}
+				}
+				evs = append(evs, ev)
 			}
 			runtime.ReadMemStats(&c1)
 			if int(c1.TotalAlloc-c0.TotalAlloc) > 2000000 {
